@@ -72,7 +72,12 @@ func buildGombok() {
 		return
 	}
 	bin := filepath.Join(d, "gombok")
-	cmd := exec.Command("go", "build", "-o", bin, "github.com/csgura/fp/cmd/gombok")
+	args := []string{"build", "-o", bin}
+	if os.Getenv("VERIF_GOMBOK_COVERDIR") != "" {
+		// informational (tools/gombokcoverage.sh): which parts of the generator do the grammars reach?
+		args = append(args, "-cover", "-coverpkg=github.com/csgura/fp/cmd/gombok,github.com/csgura/fp/metafp,github.com/csgura/fp/genfp")
+	}
+	cmd := exec.Command("go", append(args, "github.com/csgura/fp/cmd/gombok")...)
 	cmd.Dir = mod
 	cmd.Env = goEnv()
 	out, err := cmd.CombinedOutput()
@@ -267,6 +272,9 @@ func (m *Module) run(rel string, timeout time.Duration, env []string, name strin
 func (m *Module) RunGombok(rel, pkg string, extraEnv ...string) Result {
 	bin, _ := Gombok()
 	env := append([]string{"GOPACKAGE=" + pkg, "GOFILE=types.go", "GOLINE=1"}, extraEnv...)
+	if d := os.Getenv("VERIF_GOMBOK_COVERDIR"); d != "" {
+		env = append(env, "GOCOVERDIR="+d)
+	}
 	var r Result
 	for attempt := 0; attempt < 3; attempt++ {
 		r = m.run(rel, 120*time.Second, env, bin)
